@@ -34,14 +34,20 @@ class GslStub:
                 for i in range(dim):
                     b.cells[8 * i] = (8, T.var('scr%d_%d_%d' % (k, j, i)))
             ex.store(st, drv.base + 8 + 8 * j, L.I64, b.base)
-        st.log.append(('gsl_alloc', drv.base, dim))
+        st.log.append(('gsl_alloc', drv.base, dim, args[2], args[3], args[4], args[1]))     # hstart, epsabs, epsrel, step type
         return drv.base
 
     def set_hmin(self, ex, st, args, ins):
+        st.log.append(('gsl_set', 'hmin', args[0], args[1]))
         return 0
 
-    set_hmax = set_hmin
-    set_nmax = set_hmin
+    def set_hmax(self, ex, st, args, ins):
+        st.log.append(('gsl_set', 'hmax', args[0], args[1]))
+        return 0
+
+    def set_nmax(self, ex, st, args, ins):
+        st.log.append(('gsl_set', 'nmax', args[0], args[1]))
+        return 0
 
     def free(self, ex, st, args, ins):
         drv = args[0]
